@@ -216,6 +216,7 @@ def run(tape, scenario):
     ns["guard2"] = amap.globalVar("I")
     if kind == "array" or kind == "mapptr":
         ns["target"] = amap.globalVar(fmt)
+        ns["target2"] = amap.globalVar(fmt)
     if kind == "subprog":
         Sub.target = amap.globalVar(fmt)
         Sub.target.__set_name__(Sub, "target")
@@ -258,9 +259,24 @@ def run(tape, scenario):
         for k in range(post):
             p.scratch = p.scratch * 3 + 1
 
+    # the same constant added to another variable right before, as the last statement of a
+    # conditional block that only some instances enter (packet value above the threshold)
+    cond_prefix = kind == "array" and amount_kind in ("small", "large") \
+        and tape.chance("c06/add-after-conditional-add", 35)
+    cond_threshold = 1 << 29
+    # program types other than XDP can be interrupted by another instance on the same CPU
+    # (a perf event in NMI context): then even a per-CPU variable sees interleaved updates
+    same_cpu = kind == "percpu" and tape.chance("c06/instances-nested-on-one-cpu", 40)
+
     def program(self):
         if kind in ("array",):
             def iadd(a):
+                if cond_prefix:
+                    with self.pI[20] > cond_threshold:
+                        if sub_op:
+                            self.target2 -= a
+                        else:
+                            self.target2 += a
                 if sub_op:
                     self.target -= a
                 else:
@@ -396,7 +412,7 @@ def run(tape, scenario):
             for i in range(ninst):
                 pkt = bytearray(64)
                 struct.pack_into("<I", pkt, 20, pkt_amounts[i])
-                insts.append(kernel.new_instance(prog, pkt, cpu=i))
+                insts.append(kernel.new_instance(prog, pkt, cpu=0 if same_cpu else i))
             uniform = tape.chance("sched/uniform", 40)
             cur = 0
             live = list(range(ninst))
@@ -441,6 +457,17 @@ def run(tape, scenario):
                             viol("other-bytes-changed", f"{params}: neighbouring member changed", **params)
                     else:
                         got = int.from_bytes(bytes(p.amap[addr:addr + w]), "little")
+                    if cond_prefix:
+                        a2 = p.__dict__["target2"]
+                        got2 = int.from_bytes(bytes(p.amap[a2:a2 + w]), "little")
+                        want2 = sum(amounts[i] for i in range(ninst)
+                                    if pkt_amounts[i] > cond_threshold) & mask
+                        if got2 != want2:
+                            viol("update-lost",
+                                 f"{params}: conditional add before the statement: the other "
+                                 f"variable ended at {got2:#x}, expected {want2:#x} (packet "
+                                 f"values {pkt_amounts}, threshold {cond_threshold:#x})",
+                                 interleaved=interleaved, conditional=True, **params)
                     want = (init + sum(amounts)) & mask
                     if got != want:
                         viol("update-lost",
@@ -451,7 +478,8 @@ def run(tape, scenario):
                     after = bytearray(p.amap)
                     bm = bytearray(before_map)
                     saddr = p.__dict__["scratch"]
-                    for a0, n in ((saddr, 4),) + (((addr, w),) if kind != "dict" else ()):
+                    extra = ((p.__dict__["target2"], w),) if "target2" in p.__dict__ else ()
+                    for a0, n in ((saddr, 4),) + extra + (((addr, w),) if kind != "dict" else ()):
                         after[a0:a0 + n] = bytes(n)
                         bm[a0:a0 + n] = bytes(n)
                     if after != bm:
@@ -463,6 +491,8 @@ def run(tape, scenario):
                         reg = pm.region(0, cpu=c)
                         got = int.from_bytes(bytes(reg.data[addr:addr + w]), "little")
                         want = (inits[c] + amounts[c]) & mask
+                        if same_cpu:
+                            want = (inits[c] + (sum(amounts) if c == 0 else 0)) & mask
                         if got != want:
                             viol("per-instance-update-wrong",
                                  f"{params}: CPU {c}: {inits[c]:#x} + {amounts[c]} gave "
